@@ -10,6 +10,9 @@
 (***************************************************************************)
 EXTENDS Assign
 
+CONSTANT NFixed   \* names of the proposed repairs (proposed/C02-fix-*.diff) that have been applied to the code under test:
+                  \* "isinstance_runtime", "issubclass_tuple", "abc_boolable"; {} = the code as found
+
 (***************************************************************************)
 (* Objects added for C02 (falsy float, a third int, a two-character str)   *)
 (***************************************************************************)
@@ -59,8 +62,10 @@ ClsHasLen(c) == c \in {"str", "list", "tuple", "dict", "set", "Sequence", "Mappi
 ClsHasBool(c) == c \in {"int", "bool", "float", "complex", "NoneType"}
 
 \* _get_type_boolability (boolability.py:180)
+IsAbstractClass(c) == c \in {"Sequence", "Iterable", "Mapping"}
 ImplTypeBoolability(c, exact) ==
     IF c = "object" /\ ~exact THEN "boolable"
+    ELSE IF "abc_boolable" \in NFixed /\ ~exact /\ IsAbstractClass(c) THEN "boolable"      \* C02-fix-3
     ELSE IF ClsHasLen(c) THEN "boolable"
     ELSE IF ~ClsHasBool(c) THEN "type_always_true"
     ELSE "boolable"
